@@ -283,6 +283,7 @@ func sAlphabet(tier string) []sOp {
 }
 
 type sSeqArg struct {
+	Pre   []sOp `json:"pre,omitempty"` // brings the server into a non-initial state first (checked too)
 	Ops   []sOp `json:"ops"`
 	Crash bool  `json:"crash"`
 }
@@ -312,6 +313,13 @@ func sSeqJob(raw json.RawMessage) (interface{}, error) {
 	res := vrt.Run(vrt.Config{Horizon: 20_000_000}, func() {
 		d = vdisk.New(base)
 		srv := simple.Recover(d)
+		for _, o := range a.Pre {
+			if got, want := sDo(srv, o), spec.apply(o); got != want {
+				viol("seq|reply|"+o.String(), fmt.Sprintf("set-up request %s answered %+v, the specification says %+v", o, clipOut(got), clipOut(want)))
+				return
+			}
+		}
+		specs[0] = spec.Clone().(sSpec)
 		for i, o := range a.Ops {
 			cur = o.String()
 			if o.K == "RESTART" {
@@ -467,7 +475,7 @@ func C17(r *report.Report, tier string) {
 	if tier == "thorough" {
 		depth, cdepth, bound = 3, 3, 3
 	}
-	r.Rule = fmt.Sprintf("specification: inodes 2..31 are files of at most 4096 bytes; sequential: every sequence of <=%d requests over a %d-symbol alphabet (inode numbers {0,1,2,3,31,32,2^64-1}; WRITE offsets {0,1,100,4095,4096,4097,2^64-1} x counts {0,1,100,4096,4097} x data lengths {count,count-1,count+1}; READs; SETATTR sizes up to 2^64-1; restart) - every reply (status, count, data, eof, size) and the final contents against the specification; crash: every crash image of every mutating history of depth <=%d recovered with simple.Recover under two schedules: contents = specification after a prefix containing every acknowledged request, and the server keeps serving; concurrent: all schedules with <=%d deviations of 2-3 clients on one file, brute-force linearizability", depth, len(al), cdepth, bound)
+	r.Rule = fmt.Sprintf("specification: inodes 2..31 are files of at most 4096 bytes; sequential: every sequence of <=%d requests (from the initial state and from two non-initial states: a file written and then shrunk, a full file) over a %d-symbol alphabet (inode numbers {0,1,2,3,31,32,2^64-1}; WRITE offsets {0,1,100,4095,4096,4097,2^64-1} x counts {0,1,100,4096,4097} x data lengths {count,count-1,count+1}; READs; SETATTR sizes up to 2^64-1; restart) - every reply (status, count, data, eof, size) and the final contents against the specification; crash: every crash image of every mutating history of depth <=%d recovered with simple.Recover under two schedules: contents = specification after a prefix containing every acknowledged request, and the server keeps serving; concurrent: all schedules with <=%d deviations of 2-3 clients on one file, brute-force linearizability", depth, len(al), cdepth, bound)
 	var mut []sOp
 	for _, o := range al {
 		if (o.K == "WRITE" || o.K == "SETATTR") && o.Ino == 2 && (sSpec{}).apply(o).OK || (o.K == "WRITE" && o.Ino == 2 && o.Off <= 100 && o.Cnt == 100 && o.DLen == 0) {
@@ -488,6 +496,22 @@ func C17(r *report.Report, tier string) {
 		}
 	}
 	rec(nil, depth)
+	// the same sequences from non-initial states: a file written and then shrunk; a full file
+	pres := [][]sOp{
+		{{K: "WRITE", Ino: 2, Off: 0, Cnt: 4096, Pat: 0x61}, {K: "SETATTR", Ino: 2, Size: 50}},
+		{{K: "WRITE", Ino: 2, Off: 0, Cnt: 4096, Pat: 0x63}},
+	}
+	n0 := len(jobs)
+	for _, pre := range pres {
+		for i := 0; i < n0; i++ {
+			j := jobs[i].(sSeqArg)
+			if tier != "thorough" && len(j.Ops) > 2 {
+				continue
+			}
+			j.Pre = pre
+			jobs = append(jobs, j)
+		}
+	}
 	// crash histories over successful mutations (from non-initial states too)
 	mut2 := append([]sOp{}, mut...)
 	// the simple server acknowledges every write as FILE_SYNC, whatever stability was asked for
@@ -542,6 +566,7 @@ func C17(r *report.Report, tier string) {
 		{Clients: [][]sOp{{W(0, 100, 0x11)}, {W(50, 100, 0x22)}, {{K: "READ", Ino: 2, Off: 0, Cnt: 4096}}}},
 		{Clients: [][]sOp{{W(0, 200, 0x11)}, {{K: "SETATTR", Ino: 2, Size: 50}}, {{K: "READ", Ino: 2, Off: 0, Cnt: 4096}, {K: "GETATTR", Ino: 2}}}},
 		{Clients: [][]sOp{{W(0, 100, 0x11), W(100, 100, 0x12)}, {{K: "GETATTR", Ino: 2}, {K: "READ", Ino: 2, Off: 50, Cnt: 100}}}},
+		{Clients: [][]sOp{{W(0, 4096, 0x21)}, {W(0, 1, 0x22)}, {{K: "GETATTR", Ino: 2}}}},
 	}
 	var sums []*ExploreSummary
 	for _, h := range hs {
